@@ -79,8 +79,10 @@ Definition sadd_packet (p : pdu) : SM unit :=
 
 (* _reset_internal *)
 Definition sreset_internal (clear : bool) : SM unit :=
+  (* the ready counter is reset exactly where the queue is cleared (F28 repair) *)
   modify (fun s => s <| s_step := SS_IDLE |> <| s_state := ST_IDLE |>
-                     <| s_queue ::= (fun q => if clear then [] else q) |> <| s_p := reset_sparams |>).
+                     <| s_queue ::= (fun q => if clear then [] else q) |>
+                     <| s_ready ::= (fun n => if clear then 0 else n) |> <| s_p := reset_sparams |>).
 
 (* ---- file access through the virtual filestore *)
 Definition src_names : SM (path * path) :=
@@ -481,7 +483,7 @@ Definition put_request (p : putreq) : SM bool :=
   | None => raise E_NO_REMOTE_CFG
   | Some r =>
     setq (fun q => q <| q_conf ::= (fun c => c <| sc_dst := pr_dst p |> <| sc_dstw := pr_dstw p |>) |>) ;;;
-    modify (fun s => s <| s_ready := 0 |> <| s_state := ST_BUSY |>) ;;;
+    modify (fun s => s <| s_state := ST_BUSY |>) ;;;          (* the ready counter is left alone (F28 repair) *)
     let mode := match pr_mode p with Some m => m | None => r_mode r end in
     let cl := match pr_closure p with Some c => c | None => r_closure r end in
     setq (fun q => q <| q_conf ::= (fun c => c <| sc_mode := mode |>) |> <| q_closure := cl |>) ;;;
